@@ -316,6 +316,9 @@ def run_check(prop, tier, master_seed, budget_s=None, workers=None, runs=None, v
     for k, hits in known_hit.items():
         total = sum(n for _, n in hits)
         print("KNOWN-FINDING: property=%s %s [sig=%s; %d occurrence(s) this run]" % (prop.id, k.text, k.glob, total))
+        if os.environ.get("VERIF_DEBUG_KNOWN"):
+            for (o, sg), n in hits:
+                print("   concrete %s:%s x%d" % (o, sg, n))
     min_budget = 30.0 if tier == "quick" else 180.0
     for gi, ((oracle, sig), items) in enumerate(unknown_groups):
         items = [it for it in items if it[2] is not None]
